@@ -33,9 +33,17 @@ Proof.
     + apply (IShape W 97 [97]); [apply ShPlain; discriminate|reflexivity].
     + discriminate.
     + apply (RCons W ([] ++ [97]) [123; 123] [123] 123 [] [] []); [apply IOpen|reflexivity|apply RNil].
-  - apply part_ok_field. repeat split; try reflexivity; try discriminate.
-    + apply sym_expr_reads, sym1_ok; try assumption; try reflexivity; discriminate.
-    + cbn [parts_ok lit_ok]. repeat split; try reflexivity.
-      apply part_ok_field. repeat split; try reflexivity; try discriminate.
-      apply sym_expr_reads, sym1_ok; try assumption; try reflexivity; discriminate.
+  - assert (Sx : expr_reads W (MSym [120]) [120])
+      by (apply sym_expr_reads, sym1_ok; try assumption; try reflexivity; discriminate).
+    assert (Sw : expr_reads W (MSym [119]) [119])
+      by (apply sym_expr_reads, sym1_ok; try assumption; try reflexivity; discriminate).
+    apply part_ok_field.
+    refine (conj eq_refl (conj eq_refl (conj eq_refl (conj eq_refl (conj eq_refl (conj eq_refl (conj Sx (conj _ (conj _ _))))))))).
+    + discriminate.
+    + discriminate.
+    + cbn [parts_ok lit_ok]. refine (conj (conj eq_refl (conj eq_refl eq_refl)) (conj eq_refl (conj _ I))).
+      apply part_ok_field.
+      refine (conj eq_refl (conj eq_refl (conj I (conj I (conj eq_refl (conj eq_refl (conj Sw (conj _ (conj _ I))))))))).
+      * intros _. repeat split.
+      * reflexivity.
 Qed.
